@@ -294,6 +294,9 @@ def dry_runs():
     yield 'G2_levenshtein', dict(a='abc', b='axc')
 
 
+PROBES = []      # representation probes (harness/probes.py) this harness depends on
+
+
 MANIFEST_ENTRY = {
     'level_text': 'Bounded symbolic verification of the real pxssh.login/sync_original_prompt/set_unique_prompt/'
                   'prompt/levenshtein_distance over a scripted ssh client: every dialogue of up to 4 login outcomes '
